@@ -1,10 +1,452 @@
-//! Ops beyond the basic history vocabulary (queries against the evaluator, concurrency, HTTP).
+//! Ops beyond the basic history vocabulary: raw queries judged by well-formedness, concurrent
+//! clients with placements at named sync points, and the oracles over the recorded history
+//! (prefix consistency, liveness, canaries).
 
 use crate::env::*;
+use crate::model::*;
 use crate::plan::*;
+use crate::sched;
+use locustdb::LocustDB;
+use locustdb_simrt as rt;
+use std::collections::{BTreeMap, BTreeSet};
+use std::sync::atomic::Ordering;
+use std::sync::{Arc, Mutex};
 
-pub fn exec_other(env: &mut Env, op: &Op, _ctx: &str) {
+#[derive(Clone, Debug)]
+pub enum OpResult {
+    Acked,
+    Done,
+    Query(Result<QOut, QErr>),
+    CallerPanicked(String),
+}
+
+#[derive(Clone, Debug)]
+pub struct OpRecord {
+    pub client: String,
+    pub op: Op,
+    pub invoke: u64,
+    pub ret: u64,
+    pub placed: Option<(String, bool)>,
+    pub result: OpResult,
+}
+
+pub fn exec_other(env: &mut Env, op: &Op, ctx: &str) {
     match op {
+        Op::RawQuery(sql) => {
+            let r = env.query(sql);
+            check_wellformed(env, sql, &r, ctx);
+        }
+        Op::Query(q) => crate::sql::exec_query(env, q, ctx),
+        Op::Concurrent(clients) => exec_concurrent(env, clients, ctx),
+        Op::HttpQuery { .. } | Op::HttpRawQuery { .. } | Op::HttpColumns { .. } => crate::http::exec_http(env, op, ctx),
         _ => env.count("op_unimplemented"),
+    }
+}
+
+/// C12: a result is well-formed — one column per select item under the written name, equal
+/// lengths, row view and column view describe the same cells, no more rows than LIMIT.
+pub fn check_wellformed(env: &mut Env, sql: &str, r: &Result<QOut, QErr>, ctx: &str) {
+    match r {
+        Err(QErr::Panic(m)) => env.violate(&format!("query_panicked_in_caller:{}", stem(m)), format!("[{ctx}] run_query({sql:?}) panicked in the calling thread: {m}")),
+        Err(QErr::Err(kind, msg)) => {
+            env.count(&format!("query_err:{kind}"));
+            if kind == "FatalError" {
+                // "Some assumption was violated. This is a bug": the engine's own verdict
+                env.count("query_err_fatal");
+                let _ = msg;
+            }
+        }
+        Ok(o) => {
+            env.count("query_ok");
+            if o.cols.len() != o.colnames.len() && !(o.cols.is_empty() && o.rows.is_empty()) {
+                env.violate("malformed:column_count", format!("[{ctx}] {sql:?}: {} column names but {} columns", o.colnames.len(), o.cols.len()));
+                return;
+            }
+            for (i, (n, cells)) in o.cols.iter().enumerate() {
+                if n != &o.colnames[i] {
+                    env.violate("malformed:column_name", format!("[{ctx}] {sql:?}: column {i} is named {n:?} in the column view, {:?} in colnames", o.colnames[i]));
+                    return;
+                }
+                if o.had_rows && cells.len() != o.rows.len() {
+                    env.violate("malformed:column_length", format!("[{ctx}] {sql:?}: column {n:?} has {} cells, the row view has {} rows", cells.len(), o.rows.len()));
+                    return;
+                }
+            }
+            if o.had_rows {
+                for (r, row) in o.rows.iter().enumerate() {
+                    if row.len() != o.colnames.len() {
+                        env.violate("malformed:row_width", format!("[{ctx}] {sql:?}: row {r} has {} cells for {} columns", row.len(), o.colnames.len()));
+                        return;
+                    }
+                    for (c, cell) in row.iter().enumerate() {
+                        if !o.cols.is_empty() && &o.cols[c].1[r] != cell {
+                            env.violate("malformed:views_differ", format!("[{ctx}] {sql:?}: row view and column view differ at row {r} column {c}: {} vs {}", cell.short(), o.cols[c].1[r].short()));
+                            return;
+                        }
+                    }
+                }
+            }
+            if let Some(l) = parse_limit(sql) {
+                if o.rows.len() as u64 > l {
+                    env.violate("malformed:more_rows_than_limit", format!("[{ctx}] {sql:?}: {} rows returned for LIMIT {l}", o.rows.len()));
+                }
+            }
+        }
+    }
+}
+
+pub fn parse_limit(sql: &str) -> Option<u64> {
+    let up = sql.to_uppercase();
+    let i = up.rfind(" LIMIT ")?;
+    let rest = up[i + 7..].trim();
+    let tok: String = rest.chars().take_while(|c| c.is_ascii_digit()).collect();
+    if tok.is_empty() || rest[tok.len()..].trim_start().starts_with('.') {
+        None
+    } else {
+        tok.parse().ok()
+    }
+}
+
+struct ClientShared {
+    records: Vec<OpRecord>,
+    done_clients: usize,
+    model_updates: Vec<Request>,
+}
+
+fn run_client_op(db: &Arc<LocustDB>, op: &Op) -> OpResult {
+    match op {
+        Op::Ingest(req) => {
+            rt::core::log("op_invoke", || format!("ingest req={}", req.id));
+            let eb = crate::wire::event_buffer_for(req);
+            let r = catch(std::panic::AssertUnwindSafe(|| rt::block_on(db.ingest_efficient(eb))));
+            sched::progress();
+            rt::core::log("op_return", || format!("ingest req={}", req.id));
+            match r {
+                Ok(()) => OpResult::Acked,
+                Err(p) => OpResult::CallerPanicked(panic_message(&p)),
+            }
+        }
+        Op::Flush => {
+            rt::core::log("op_invoke", || "flush".into());
+            let r = catch(std::panic::AssertUnwindSafe(|| db.force_flush()));
+            sched::progress();
+            rt::core::log("op_return", || "flush".into());
+            match r {
+                Ok(()) => OpResult::Done,
+                Err(p) => OpResult::CallerPanicked(panic_message(&p)),
+            }
+        }
+        Op::Evict => {
+            rt::core::log("op_invoke", || "evict".into());
+            let r = catch(std::panic::AssertUnwindSafe(|| db.evict_cache()));
+            sched::progress();
+            rt::core::log("op_return", || "evict".into());
+            match r {
+                Ok(_) => OpResult::Done,
+                Err(p) => OpResult::CallerPanicked(panic_message(&p)),
+            }
+        }
+        Op::RawQuery(sql) => OpResult::Query(run_query(db, sql)),
+        Op::Stats => {
+            rt::core::log("op_invoke", || "table_stats".into());
+            let r = catch(std::panic::AssertUnwindSafe(|| rt::block_on(db.table_stats())));
+            sched::progress();
+            rt::core::log("op_return", || "table_stats".into());
+            match r {
+                Ok(Ok(_)) => OpResult::Done,
+                Ok(Err(_)) => OpResult::CallerPanicked("table_stats: Canceled".into()),
+                Err(p) => OpResult::CallerPanicked(panic_message(&p)),
+            }
+        }
+        Op::MemTree => {
+            rt::core::log("op_invoke", || "mem_tree".into());
+            let r = catch(std::panic::AssertUnwindSafe(|| rt::block_on(db.mem_tree(2, None))));
+            sched::progress();
+            rt::core::log("op_return", || "mem_tree".into());
+            match r {
+                Ok(Ok(_)) => OpResult::Done,
+                Ok(Err(_)) => OpResult::CallerPanicked("mem_tree: Canceled".into()),
+                Err(p) => OpResult::CallerPanicked(panic_message(&p)),
+            }
+        }
+        Op::Sleep(ms) => {
+            rt::time::sleep(std::time::Duration::from_millis(*ms));
+            sched::progress();
+            OpResult::Done
+        }
+        _ => OpResult::Done,
+    }
+}
+
+/// Run client op lists concurrently. Ops with a placement wait for their sync point; placements
+/// whose sync point is never reached run at the end (fallback) so that every op is executed.
+pub fn exec_concurrent(env: &mut Env, clients: &[ClientPlan], ctx: &str) {
+    let db = env.db();
+    let group = env.group;
+    let shared = Arc::new(Mutex::new(ClientShared { records: Vec::new(), done_clients: 0, model_updates: Vec::new() }));
+    let mut all_triggers: Vec<usize> = Vec::new();
+    for cl in clients {
+        let mut triggers: Vec<Option<usize>> = Vec::new();
+        for co in &cl.ops {
+            match &co.at {
+                Some((label, nth, yields)) => {
+                    let t = rt::core::trigger_new();
+                    rt::core::with_ctx(|c| c.placements.push(rt::core::Placement { label: label.clone(), nth: *nth, trigger: t, yields: *yields }));
+                    triggers.push(Some(t));
+                    all_triggers.push(t);
+                }
+                None => triggers.push(None),
+            }
+        }
+        let db2 = db.clone();
+        let sh = shared.clone();
+        let cl2 = cl.clone();
+        rt::thread::spawn_harness(&format!("client:{}", cl.name), move || {
+            rt::thread::set_current_group(group);
+            for (i, co) in cl2.ops.iter().enumerate() {
+                let mut placed = None;
+                if let Some(t) = triggers[i] {
+                    let by_label = rt::core::trigger_wait(t);
+                    placed = Some((co.at.as_ref().unwrap().0.clone(), by_label));
+                }
+                let invoke = rt::core::event_seq();
+                let result = run_client_op(&db2, &co.op);
+                let ret = rt::core::event_seq();
+                if let Some(t) = triggers[i] {
+                    rt::core::trigger_done(t);
+                }
+                let mut g = sh.lock().unwrap();
+                if let (Op::Ingest(req), OpResult::Acked) = (&co.op, &result) {
+                    g.model_updates.push(req.clone());
+                }
+                g.records.push(OpRecord { client: cl2.name.clone(), op: co.op.clone(), invoke, ret, placed, result });
+            }
+            drop(db2);
+            sh.lock().unwrap().done_clients += 1;
+        });
+    }
+    // join: poll without keeping the clock from advancing (the scheduler knows the poller)
+    let me = rt::core::me();
+    rt::core::QUIESCE_INERT.store(false, Ordering::SeqCst);
+    rt::core::QUIESCE_POLLER.store(me, Ordering::SeqCst);
+    let mut hung = false;
+    loop {
+        if shared.lock().unwrap().done_clients == clients.len() {
+            break;
+        }
+        if rt::core::QUIESCE_INERT.swap(false, Ordering::SeqCst) {
+            // nothing can run: clients wait for sync points that were not reached (run them now)
+            // or something is blocked for good
+            let unarmed: Vec<usize> = rt::core::with_ctx(|c| all_triggers.iter().cloned().filter(|t| !c.triggers[*t].armed).collect());
+            if unarmed.is_empty() {
+                hung = true;
+                break;
+            }
+            for t in unarmed {
+                rt::core::trigger_arm(t, false);
+            }
+        }
+        rt::core::yield_now();
+    }
+    rt::core::QUIESCE_POLLER.store(usize::MAX, Ordering::SeqCst);
+    rt::core::with_ctx(|c| c.placements.clear());
+    let (records, updates) = {
+        let g = shared.lock().unwrap();
+        (g.records.clone(), g.model_updates.clone())
+    };
+    if hung {
+        let pending: Vec<String> = rt::core::wait_reasons().into_iter().map(|(t, r)| format!("t{t}:{r}")).collect();
+        let cause = rt::core::with_ctx(|c| c.panics.first().map(|p| format!("hang_after_panic:{}:{}:concurrent", file_of(&p.location), stem(&p.message))));
+        env.collect_panics(ctx);
+        env.violate(&cause.unwrap_or_else(|| "hang:concurrent:no_panic".into()), format!("[{ctx}] concurrent clients never finished: every thread is blocked ({pending:?}); {} of their ops had returned", records.len()));
+        return;
+    }
+    // acknowledged requests enter the model in acknowledgement order
+    let mut acked: Vec<(u64, Request)> = Vec::new();
+    for r in &records {
+        if let (Op::Ingest(req), OpResult::Acked) = (&r.op, &r.result) {
+            acked.push((r.ret, req.clone()));
+        }
+    }
+    acked.sort_by_key(|a| a.0);
+    let model_before = env.model.clone();
+    for (_, req) in &acked {
+        env.model.apply(req);
+    }
+    let _ = updates;
+    env.count_n("concurrent_ops", records.len() as u64);
+    for r in &records {
+        if let Some((label, by_label)) = &r.placed {
+            env.count(if *by_label { "placed_at_sync_point" } else { "placement_fallback_at_end" });
+            if *by_label {
+                env.count(&format!("placed:{label}"));
+            }
+        }
+        if let OpResult::CallerPanicked(m) = &r.result {
+            env.violate(&format!("call_panicked_in_caller:{}", stem(m)), format!("[{ctx}] client {} op {} panicked in the calling thread: {m}", r.client, crate::exec::op_name(&r.op)));
+        }
+    }
+    env.collect_panics(ctx);
+    check_prefix_consistency(env, &model_before, &records, ctx);
+    let canary_rows = env.model.tables.get("canary").map(|t| t.rows.len() as i64);
+    for r in &records {
+        if let (Op::RawQuery(sql), OpResult::Query(q)) = (&r.op, &r.result) {
+            if sql == "SELECT COUNT(1) FROM canary" {
+                env.count("canaries");
+                let ok = matches!(q, Ok(o) if o.rows.len() == 1 && Some(o.rows[0][0].clone()) == canary_rows.map(Cell::I));
+                if !ok {
+                    let prev = records.iter().filter(|x| x.client == r.client && x.ret <= r.invoke).last().map(|x| crate::exec::op_name(&x.op)).unwrap_or_default();
+                    env.violate(
+                        "canary_failed",
+                        format!("[{ctx}] client {}: canary query after `{}` answered {:?}, expected COUNT = {:?}", r.client, prev, q.as_ref().map(|o| o.rows.clone()).map_err(|e| format!("{}: {}", e.kind(), e.msg())), canary_rows),
+                    );
+                }
+                continue;
+            }
+            check_wellformed(env, sql, q, ctx);
+        }
+    }
+}
+
+/// ids carry their request: id = request * 1000 + index within the request's rows for the table
+fn req_of(id: i64) -> u32 {
+    (id / 1000) as u32
+}
+
+/// C10: a query that overlapped ingestion / flush / compaction / eviction returned a clean prefix.
+fn check_prefix_consistency(env: &mut Env, before: &Model, records: &[OpRecord], ctx: &str) {
+    // per table: requests (id, rows for this table, invoke, ret/acked)
+    struct Rq {
+        id: u32,
+        rows: usize,
+        invoke: u64,
+        ret: u64,
+        acked: bool,
+    }
+    let mut per_table: BTreeMap<String, Vec<Rq>> = BTreeMap::new();
+    for r in records {
+        if let Op::Ingest(req) = &r.op {
+            for t in &req.tables {
+                per_table.entry(t.table.clone()).or_default().push(Rq { id: req.id, rows: t.rows, invoke: r.invoke, ret: r.ret, acked: matches!(r.result, OpResult::Acked) });
+            }
+        }
+    }
+    for r in records {
+        let (sql, out) = match (&r.op, &r.result) {
+            (Op::RawQuery(sql), OpResult::Query(q)) => (sql, q),
+            _ => continue,
+        };
+        // only the query forms the C10 generator emits (see props::prefix_query)
+        let is_prefix_form = ["t0", "t1"].iter().any(|t| {
+            [format!("SELECT id FROM \"{t}\""), format!("SELECT COUNT(1), SUM(id) FROM \"{t}\""), format!("SELECT nosuchcol, id FROM \"{t}\""), format!("SELECT v, id FROM \"{t}\"")].contains(sql)
+        });
+        if !is_prefix_form {
+            continue;
+        }
+        let table = match sql.split(" FROM ").nth(1) {
+            Some(t) => t.split_whitespace().next().unwrap_or("").trim_matches('"').to_string(),
+            None => continue,
+        };
+        let out = match out {
+            Ok(o) => o,
+            Err(e) => {
+                env.violate(&format!("concurrent_query_failed:{}:{}", e.kind(), stem(&e.msg())), format!("[{ctx}] client {} query {sql:?} failed while other clients were active: {}: {}", r.client, e.kind(), e.msg()));
+                continue;
+            }
+        };
+        let base_ids: Vec<i64> = before.tables.get(&table).map(|t| t.column("id").iter().filter_map(|c| if let Cell::I(i) = c { Some(*i) } else { None }).collect()).unwrap_or_default();
+        let empty = Vec::new();
+        let rqs = per_table.get(&table).unwrap_or(&empty);
+        let must: BTreeSet<u32> = rqs.iter().filter(|q| q.acked && q.ret <= r.invoke).map(|q| q.id).collect();
+        let may: BTreeSet<u32> = rqs.iter().filter(|q| q.invoke <= r.ret).map(|q| q.id).collect();
+        let rows_of: BTreeMap<u32, usize> = rqs.iter().map(|q| (q.id, q.rows)).collect();
+        env.count("prefix_queries_checked");
+        if sql.contains("COUNT(1)") {
+            // aggregate form: (count, sum of ids) must be those of base + some admissible set
+            let (cnt, sum) = match out.rows.first() {
+                Some(row) if row.len() >= 2 => (row[0].clone(), row[1].clone()),
+                _ => {
+                    if base_ids.is_empty() && must.is_empty() {
+                        continue;
+                    }
+                    env.violate("prefix:aggregate_missing", format!("[{ctx}] {sql:?} returned no row"));
+                    continue;
+                }
+            };
+            let optional: Vec<u32> = may.difference(&must).cloned().collect();
+            let mut ok = false;
+            for mask in 0..(1u32 << optional.len().min(12)) {
+                let mut c = base_ids.len() as i64;
+                let mut s: i64 = base_ids.iter().sum();
+                for id in must.iter().chain(optional.iter().enumerate().filter(|(i, _)| mask >> i & 1 == 1).map(|(_, id)| id)) {
+                    let n = rows_of[id] as i64;
+                    c += n;
+                    s += (0..n).map(|i| *id as i64 * 1000 + i).sum::<i64>();
+                }
+                let cnt_ok = cnt == Cell::I(c) || (c == 0 && cnt == Cell::N);
+                let sum_ok = sum == Cell::I(s) || (c == 0 && (sum == Cell::N || sum == Cell::I(0)));
+                if cnt_ok && sum_ok {
+                    ok = true;
+                    break;
+                }
+            }
+            if !ok {
+                env.violate("prefix:aggregate_not_a_prefix", format!("[{ctx}] client {} {sql:?} = (count {}, sum {}) matches no set of whole requests: base rows {}, must include {:?}, may include {:?}", r.client, cnt.short(), sum.short(), base_ids.len(), must, optional));
+            }
+            continue;
+        }
+        // row form: the id column is the last select item
+        let ids: Vec<i64> = out.rows.iter().filter_map(|row| if let Some(Cell::I(i)) = row.last() { Some(*i) } else { None }).collect();
+        if ids.len() != out.rows.len() {
+            env.violate("prefix:id_missing", format!("[{ctx}] {sql:?}: a returned row has no integer id: {:?}", out.rows.iter().take(5).collect::<Vec<_>>()));
+            continue;
+        }
+        if ids.len() < base_ids.len() || ids[..base_ids.len()] != base_ids[..] {
+            env.violate("prefix:old_rows_changed", format!("[{ctx}] client {} {sql:?}: the {} rows present before the concurrent phase are not returned first and unchanged (got {:?}…)", r.client, base_ids.len(), ids.iter().take(8).collect::<Vec<_>>()));
+            continue;
+        }
+        let tail = &ids[base_ids.len()..];
+        let mut seen: Vec<u32> = Vec::new();
+        let mut i = 0;
+        let mut bad = None;
+        while i < tail.len() {
+            let rq = req_of(tail[i]);
+            let n = *rows_of.get(&rq).unwrap_or(&0);
+            if seen.contains(&rq) {
+                bad = Some(format!("rows of request {rq} appear twice / not contiguously"));
+                break;
+            }
+            if n == 0 || !may.contains(&rq) {
+                bad = Some(format!("row id {} belongs to no request that was invoked before the query returned", tail[i]));
+                break;
+            }
+            if i + n > tail.len() || (0..n).any(|k| tail[i + k] != rq as i64 * 1000 + k as i64) {
+                bad = Some(format!("request {rq} is included partially or out of order ({} rows expected from position {i})", n));
+                break;
+            }
+            seen.push(rq);
+            i += n;
+        }
+        if bad.is_none() {
+            if let Some(m) = must.iter().find(|m| !seen.contains(m)) {
+                bad = Some(format!("request {m} was acknowledged before the query started but its rows are missing"));
+            }
+        }
+        if bad.is_none() {
+            // order of included requests respects real time: if x was acknowledged before y was invoked, x comes first
+            for (pi, x) in seen.iter().enumerate() {
+                for y in &seen[..pi] {
+                    let qx = rqs.iter().find(|q| q.id == *x).unwrap();
+                    let qy = rqs.iter().find(|q| q.id == *y).unwrap();
+                    if qx.acked && qx.ret <= qy.invoke {
+                        bad = Some(format!("request {x} (acknowledged before request {y} was sent) is returned after it"));
+                    }
+                }
+            }
+        }
+        if let Some(b) = bad {
+            let class = if b.contains("twice") { "prefix:rows_twice" } else if b.contains("partially") { "prefix:request_partial" } else if b.contains("missing") { "prefix:acked_rows_missing" } else if b.contains("returned after") { "prefix:order" } else { "prefix:foreign_row" };
+            env.violate(class, format!("[{ctx}] client {} {sql:?} (invoked at event {}, returned at {}): {b}; ids after the base rows: {:?}", r.client, r.invoke, r.ret, tail.iter().take(40).collect::<Vec<_>>()));
+        }
     }
 }
